@@ -114,7 +114,10 @@ Candidates ==
     \cup {Step("HR", 0, h, "", <<>>, 0) : h \in Handles}
     \cup {Step("SC", 0, 0, "", <<>>, i) : i \in 1..MaxHeld}
 
-Next == \E c \in Candidates : \E e \in (IF c.op = "HR" /\ w.hnd[c.h] # 0
+\* simulation only: a caller that appended looks at what the handle shows next (or appends again) - the sessions
+\* concentrate on reads through the writing handle; the exhaustive run is not restricted
+Focus(c) == (FreeEntries /\ log # <<>> /\ log[Len(log)].op = "AP") => (c.op \in {"HR", "AP"} /\ c.h = log[Len(log)].h)
+Next == \E c \in {x \in Candidates : Focus(x)} : \E e \in (IF c.op = "HR" /\ w.hnd[c.h] # 0
                                           THEN (IF IsRaw(w.hnd[c.h]) THEN VRange(RawHREntries) ELSE VRange(HREntries))
                                           ELSE EChoice(c)) : Do([c EXCEPT !.e = e])
 
